@@ -65,7 +65,7 @@ def rand_case(rng):
         obj["orig_table_seed"] = oseed
     desc = dict(sequence=seq, constraints=[dict(kind="cds", location=loc, table=rng.choice(["Standard", "Bacterial"]),
                                                 start_codon=None, translation=None)],
-                objectives=[obj], settings=problems.rand_settings(rng) if rng.random() < 0.3 else {},
+                objectives=[obj], settings={},   # default solver settings: the property does not quantify over degraded searches
                 np_seed=rng.randint(0, 10 ** 6), protein=protein, targeted=targeted)
     return desc
 
